@@ -306,6 +306,8 @@ def snap_contract(variant):
                  raises=lambda S, a, e: z3.BoolVal(False), hooks={"Nsteps[]": nsteps_lemma})
     c.region_name = "snapping, code length and reported row (%s likelihood)" % variant
     c.loop_select = loop_select
+    if variant == "any":
+        c.optional_hooks = ("Nsteps[]",)          # the variant for arbitrary input needs no closed form of Nsteps
 
     def no_bad_entry(S, st, node):
         # regular input: the count of non-positive entries tested by the first `if` is zero (so that branch is not taken)
@@ -320,6 +322,7 @@ def snap_contract(variant):
         S.eng.oblige(st, "lemma: on regular input no diagonal entry is <= 0 (the count tested by the first `if` is zero)", CNT(bm, K0) == 0, "lemma", node,
                      axioms=S.eng.axioms[n0:])
         st.assume(CNT(bm, K0) == 0)
+    no_bad_entry.optional = (variant == "any")
     c.stmt_hooks = [(lambda node: isinstance(node, ast.If) and "fish" in ast.dump(node.test) and "LtE" in ast.dump(node.test), no_bad_entry)]
     return c
 
